@@ -1,6 +1,6 @@
 PROPERTIES = ['C03', 'C02']
 BOUNDS = {
-    'quick': 'static_set<Tracked,CAP> and flat_set<Tracked, static_vector<Tracked,CAP>>: one operation from every size; static_set at capacity 2, flat_set at capacity 3 (copy+move keys, every size NA, second set / source block size NB in {0,1,2} / {0,1,3}); move-only and copy-only keys at capacity 2 from size 1; '
+    'quick': 'static_set<Tracked,CAP> and flat_set<Tracked, static_vector<Tracked,CAP>>: one operation from every size; static_set at capacity 2, flat_set at capacity 3 (copy+move keys, every size NA, second set / source block size NB in {0,1,2}); move-only and copy-only keys at capacity 2 from size 1; '
              ' key values symbolic (pre-state keys pairwise distinct), erase positions symbolic (case-split)',
     'thorough': 'static_set: copy+move keys at capacity 2 (every NB) and 3 (NB = 0), move-only and copy-only at capacity 2 (every NB); flat_set: copy+move keys at capacity 3 (every NB) and 4 (NB = 0), '
                 'move-only and copy-only at capacity 3 (NB in {0,1}); every size NA',
@@ -38,7 +38,7 @@ def queries(tier, prop='C03'):
     only_na = {}
     if tier == 'quick':
         grid = [('ss_', 0, 2, (0, 1, 2)), ('ss_', 1, 2, (0, 1)), ('ss_', 2, 2, (0, 1)),
-                ('fs_', 0, 3, (0, 1, 3)), ('fs_', 1, 2, (0, 1)), ('fs_', 2, 2, (0, 1))]
+                ('fs_', 0, 3, (0, 1, 2)), ('fs_', 1, 2, (0, 1)), ('fs_', 2, 2, (0, 1))]
         only_na = {1: (1,), 2: (1,)}   # quick: move-only and copy-only keys from the middle size only
     else:
         grid = [('ss_', 0, 2, (0, 1, 2)), ('ss_', 0, 3, (0,)), ('ss_', 1, 2, (0, 1, 2)), ('ss_', 2, 2, (0, 1, 2))]
@@ -60,7 +60,7 @@ def queries(tier, prop='C03'):
                     base = e[3:]
                     if fl == 1 and (base in NEED_COPY or e == 'ss_emplace'): continue   # static_set::emplace requires a copy-constructible key
                     q = dict(entry='q_' + e, cfg={'FLAV': fl, 'CAP': cap, 'NA': na, 'NB': nb, 'LG_SLOTS': 2 * cap + 2}, unwind=cap + 3, unwindset=uw(cap * 8 + 18, cap),
-                             budget=120 if tier == 'quick' else 900, ub=ub, nofunc=ub)
+                             budget=240 if tier == 'quick' else 900, ub=ub, nofunc=ub)
                     if base in KF_WHOLE and KF_WHOLE[base][1](na): q['kf_only'] = KF_WHOLE[base][0]
                     out.append(q)
     for q_ in out:
